@@ -216,10 +216,50 @@ def _other_value(kn, v):
     return v + 1.5
 
 
+def rejected_tell_case(seed):
+    """LearnerND: a result for an in-domain point that the triangulation refuses (it lies within its 1e-8 tolerance of an
+    evaluated vertex) makes tell() raise - whether that rejection is right is C03/C04's business; the bookkeeping of C10 must hold
+    afterwards all the same: a told point is not pending, data and the point count agree"""
+    import adaptive
+    rng = random.Random(seed)
+    dim = rng.choice([2, 3])
+    l = adaptive.LearnerND(lambda p: float(sum(p)), [(-1.0, 1.0)] * dim if rng.random() < 0.5 else [(0.0, 2.0)] * dim)
+    f = l.function
+    corners = list(l._bounds_points)
+    c = rng.choice(corners)
+    lo_hi = l._bbox
+    q = tuple(x + (1e-10 if x == a else -1e-10) * rng.choice([1, 3]) for x, (a, b) in zip(c, lo_hi))
+    res = {"kind": f"lnd{dim}-rejected-tell", "seed": seed, "nops": 0, "fail": None, "stats": {}}
+    early = rng.random() < 0.5
+    if early:
+        l.tell_pending(q)
+    pts, _ = l.ask(len(corners) + rng.choice([0, 1, 3]))
+    for p in pts:
+        l.tell(p, f(p))
+    if not early:
+        try:
+            l.tell_pending(q)
+        except ValueError:
+            res["stats"]["rejected_mark"] = 1   # the triangulation refuses the near-duplicate already here
+    raised = None
+    try:
+        l.tell(q, f(q))
+    except ValueError as e:
+        raised = str(e)
+    res["stats"]["rejected_tell" if raised else "accepted_near_duplicate"] = 1
+    if q in l.pending_points:
+        res["fail"] = ("told_not_pending", f"[LearnerND {dim}-d] tell({q}) {'raised ' + repr(raised) if raised else 'returned'}; the point "
+                                           f"{'is in data and' if q in l.data else 'is not in data but'} still pending")
+    elif l.npoints != len(l.data):
+        res["fail"] = ("npoints", f"[LearnerND {dim}-d] npoints {l.npoints} != len(data) {len(l.data)} after a rejected tell")
+    return res
+
+
 def run(ctx):
     proof = core.prove(MODULES, extra_targets=["AdaptiveProofs.Examples.Misc", "AdaptiveProofs.Examples.C10More"], leanchecker=ctx.thorough)
     args = [(kn, ctx.rng.randrange(1 << 30), ctx.n(35, 70)) for kn in KINDS for _ in range(ctx.n(14, 300))]
     results = core.pmap(case, args)
+    results += core.pmap(rejected_tell_case, [ctx.rng.randrange(1 << 30) for _ in range(ctx.n(24, 300))])
     failures, dist, aborted, stats = [], {}, {}, {}
     for r in results:
         dist[r["kind"]] = dist.get(r["kind"], 0) + 1
@@ -263,6 +303,6 @@ def run(ctx):
 
 def replay(ctx, path):
     d = json.load(open(path)).get("replay")
-    r = case((d["kind"], d["seed"], d["nops"]))
+    r = rejected_tell_case(d["seed"]) if d["kind"].endswith("rejected-tell") else case((d["kind"], d["seed"], d["nops"]))
     print(r)
     return 1 if r["fail"] else 0
